@@ -71,6 +71,12 @@ def gen_entity(rng, eid, tag):
         d["split_category_attributes"] = True
     if rng.random() < 0.25:
         d["unknown_extension"] = True
+    if rng.random() < 0.2:
+        d["empty_value_entity_attribute"] = "urn:example:verif:blank"
+    if rng.random() < 0.3:
+        d["proto_list"] = rng.choice(["urn:oasis:names:tc:SAML:1.1:protocol urn:oasis:names:tc:SAML:2.0:protocol", "urn:oasis:names:tc:SAML:2.0:protocol&#9;urn:oasis:names:tc:SAML:1.1:protocol",
+                                      "urn:oasis:names:tc:SAML:1.1:protocol&#10;urn:oasis:names:tc:SAML:2.0:protocol", "urn:oasis:names:tc:SAML:1.1:protocol  urn:oasis:names:tc:SAML:2.0:protocol",
+                                      " urn:oasis:names:tc:SAML:2.0:protocol "])
     if rng.random() < 0.3:
         # the categories the entity honours as a releasing party - another attribute, another claim
         d["entity_category_support"] = rng.sample(CATS, rng.randint(1, 2))
@@ -456,6 +462,8 @@ def compare(case, store, sources, viol, counters, sigs, tag=None):
                     want["http://macedir.org/entity-category"] = sorted(e["entity_categories"])
                 if e.get("entity_category_support"):
                     want["http://macedir.org/entity-category-support"] = sorted(e["entity_category_support"])
+                if e.get("empty_value_entity_attribute"):
+                    want[e["empty_value_entity_attribute"]] = [""]        # (declared with one value, the empty one)
                 adm.append(want)
             if got not in adm:
                 bad("C16/entity-attributes-differ", "%s entity_attributes -> %r, declared %r" % (eid, got, adm))
